@@ -78,6 +78,17 @@ def unknown_coll(M: Model, e: ast.expr):
             if equivalent(f, f_not(atom(a))):
                 return ("ok", None) if kind == "all" else ("other", kind.split(":", 1)[-1])
         return None
+    if isinstance(e, ast.Call) and isinstance(e.func, ast.Name) and e.func.id == "filter" and len(e.args) == 2 and isinstance(e.args[0], ast.Lambda) and len(e.args[0].args.args) == 1:
+        from core.guards import to_formula
+
+        if M.keys_of_A(e.args[1]) != "keys":
+            return None
+        var = e.args[0].args.args[0].arg
+        f = to_formula(e.args[0].body, M.helper_subst())
+        for a, kind in membership_atoms(M, f, var).items():
+            if equivalent(f, f_not(atom(a))):
+                return ("ok", None) if kind == "all" else ("other", kind.split(":", 1)[-1])
+        return None
     if isinstance(e, ast.BinOp) and isinstance(e.op, ast.Sub):
         l, r = strip_wrappers(e.left, SET_WRAPPERS), e.right
         if M.keys_of_A(l) == "keys":
@@ -196,6 +207,14 @@ def existence_check(C) -> None:
         return
     unsure = [f for f in findings if f[0] == "unknown"]
     hidden = remaining_helper_calls(C, about=M.mentions_A)
+    if not unsure:
+        # a raise that depends on the aliases in a way that was not read is not 'no check'
+        for r in _walk_own(M.fn.body):
+            if isinstance(r, ast.Raise):
+                around = [M.resolve(L.iter) for L in M.loops_around(r)] + [M.resolve(c[0]) for c in M.history_conds(r)] + ([M.resolve(r.exc)] if r.exc is not None else [])
+                if any(M.mentions_A(x) or _mentions_a_key(M, x) for x in around):
+                    unsure.append(("unknown", None, r, f"`{norm(r.exc, 60) if r.exc is not None else 'raise'}` depends on the aliases in a way that is not recognised as the existence check", False))
+                    break
     if unsure:
         C.unsure(rule, naming, unsure[0][3], unsure[0][2])
     elif hidden:
@@ -203,6 +222,16 @@ def existence_check(C) -> None:
     else:
         C.bad(rule, first, "labels are built without the aliased modules having been checked for existence: nothing between reading 'aliases' and the backend call raises for an unknown module", kind="dominance")
         C.bad(rule, naming, "an alias for an unknown module is not rejected with an error that names the module", kind="dominance")
+
+
+def _mentions_a_key(M: Model, e: ast.AST) -> bool:
+    """`e` mentions a variable that ranges over the aliased names"""
+    for x in ast.walk(e):
+        if isinstance(x, ast.Name):
+            b = M.loop_binding(x.id)
+            if b is not None and b.value is not None and M.mentions_A(M.resolve(b.value)):
+                return True
+    return False
 
 
 def _analyse_raise(C, r: ast.Raise):
@@ -217,6 +246,8 @@ def _analyse_raise(C, r: ast.Raise):
             if u is not None and isinstance(L.target, ast.Name):
                 f = M.guard(r, relative_to=L)
                 named = any(isinstance(x, ast.Name) and x.id == L.target.id for x in ast.walk(exc))
+                if u[0] == "other" and M.G is not None and M.G in (u[1] or ""):
+                    return ("unknown", L, r, f"`{u[1]}` is not recognised as the nodes of the drawn graph", named)
                 if u[0] == "other":
                     return ("violation", L, r, f"the existence of aliased modules is checked against `{u[1]}`, not against the nodes of the drawn graph", named)
                 if f == TRUE:
@@ -238,8 +269,10 @@ def _analyse_raise(C, r: ast.Raise):
                 continue
             if eq and kind == "all":
                 return ("ok", L, r, "", named)
-            if eq:
+            if eq and kind.startswith("other:") and M.G is not None and M.G not in kind:
                 return ("violation", L, r, f"the existence of aliased modules is checked against `{kind.split(':', 1)[-1]}`, not against the nodes of the drawn graph", named)
+            if eq:
+                return ("unknown", L, r, f"the collection `{kind.split(':', 1)[-1]}` the aliased modules are looked up in is not recognised as the nodes of the drawn graph", named)
             if stronger and kind == "all":
                 return ("violation", L, r, f"an alias for an unknown module is not rejected on every path: the error is only raised under the further condition `{norm(M.stmt_of(r) if False else _if_text(M, r), 70)}`", named)
         return ("unknown", L, r, f"condition of `{norm(r.exc, 50)}` not recognised as 'the aliased module is not a node'", named)
@@ -277,6 +310,8 @@ def _analyse_raise(C, r: ast.Raise):
     while p is not None and not isinstance(p, ast.If):
         p = parent(p)
     decision = p if p is not None else decision
+    if u[0] == "other" and M.G is not None and M.G in (u[1] or ""):
+        return ("unknown", decision, r, f"`{u[1]}` is not recognised as the nodes of the drawn graph", named)
     if u[0] == "other":
         return ("violation", decision, r, f"the existence of aliased modules is checked against `{u[1]}`, not against the nodes of the drawn graph", named)
     env_t = {x: True for x in atoms_of(f)}
